@@ -326,6 +326,23 @@ func run(c Case) *stat.Failure {
 		}
 		return nil
 	}
+	if v.f.Sig == "healthy-call-failed" {
+		// schedule-dependent: on a busy machine the client may still be digesting a fault of
+		// an earlier step (garbage processed late closes the connection the healthy call
+		// went out on). A defect in the receive path reproduces; confirm twice, alone.
+		for i := 0; i < 2; i++ {
+			time.Sleep(300 * time.Millisecond)
+			w := runOnce(c)
+			if w.f == nil || w.f.Sig != "healthy-call-failed" {
+				if w.f != nil && w.f.Sig != "deadline-overrun" {
+					return w.f
+				}
+				st.Inconclusive()
+				return nil
+			}
+		}
+		return v.f
+	}
 	if !v.overrun || v.f.Sig != "deadline-overrun" {
 		return v.f
 	}
